@@ -33,7 +33,10 @@ def _target(t: Any) -> Any:
 def _sig(params: list[dict]) -> str:
     req = [p for p in params if "default" not in p]
     opt = [p for p in params if "default" in p]
-    parts = [p["name"] for p in req] + [f"{p['name']}={p['default']!r}" for p in opt]
+    def lit(v: Any) -> str:
+        return "([],)" if v == "__tuple_of_list__" else repr(v)  # (JSON has no tuples: a marker stands for a tuple holding a list)
+
+    parts = [p["name"] for p in req] + [f"{p['name']}={lit(p['default'])}" for p in opt]
     return ", ".join(parts)
 
 
@@ -135,12 +138,23 @@ class Compiler:
             wait_for=_tup(node.get("wait_for", [])),
             rename_inputs=node.get("rename_inputs") or None,
         )
+        late_ri = None
+        if node.get("rename_after_use") and kw.get("rename_inputs"):
+            # the node object is built without the renames, USED (introspected, placed in a throw-away graph), and only then renamed
+            late_ri, kw["rename_inputs"] = kw["rename_inputs"], None
         ren = {}
         if node.get("emit_via_rename") and node.get("emit"):
             # the signal is declared under a provisional name and renamed with with_outputs (emit outputs are outputs)
             ren = {"pre_" + e: e for e in node["emit"]}
             kw["emit"] = _tup(list(ren))
         n = hg.node(output_name=_tup(node.get("outs", [])), **kw)(func) if deco else FunctionNode(func, name=node["name"], output_name=_tup(node.get("outs", [])), **kw)
+        if late_ri:
+            _ = (n.inputs, n.outputs, n.defaults, n.definition_hash)
+            try:
+                hg.Graph([n], name="throwaway")
+            except Exception:  # noqa: BLE001
+                pass
+            n = n.with_inputs(**late_ri)
         return n.with_outputs(**ren) if ren else n
 
     def gate_node(self, node: dict) -> Any:
